@@ -74,6 +74,21 @@ impl TokenInner {
     }
 }
 
+#[cfg(calloop_verif)]
+impl TokenInner {
+    pub(crate) fn verif_from_parts(id: u32, version: u16, sub_id: u16) -> TokenInner {
+        TokenInner {
+            id,
+            version,
+            sub_id,
+        }
+    }
+
+    pub(crate) fn verif_parts(self) -> (u32, u16, u16) {
+        (self.id, self.version, self.sub_id)
+    }
+}
+
 impl From<usize> for TokenInner {
     fn from(value: usize) -> Self {
         let sub_id = (value & MASK_SUBID) as u16;
